@@ -85,6 +85,18 @@ CLAIMS = {
               "raised after the loop - is re-extracted from the AST on every run. numba's exception propagation is outside "
               "the model and exercised by single/list requests in interpreter and JIT mode (positions, lengths, thread "
               "counts, one-ulp/near/far outside, each axis and side, missing gradient, exhausted budget, valid requests).")),
+    "C17": dict(
+        category="proof", design_ref="DESIGN.md §8 C17",
+        technique="Lean 4 state-machine theorems (history erasure) + AST purity facts re-checked each run + differential API histories against fresh objects over input representations",
+        text=("Proved in the state-machine model of the object layer (every scalar type, SciPy calls as parameters): solve "
+              "and point evaluation leave the state unchanged, the state after any history equals the state after its "
+              "resample/smooth operations alone, and a query's output is a function of the current state and its "
+              "arguments. Tied to the code by AST facts regenerated on every run (no method other than "
+              "__init__/resample/smooth assigns an attribute, stores through a subscript or updates in place; kernels "
+              "write none of their parameters; no module-level mutable state). Representation independence (list/tuple/"
+              "float32/int/F-order/strided/read-only inputs), aliasing, copies/deep copies, calls that raised, and "
+              "(thorough) cold vs warm JIT cache are outside any Lean model and are exercised by random API histories "
+              "compared bit-for-bit with fresh objects, in interpreter and JIT mode, with argument snapshots.")),
 }
 
 WIP = "check not registered yet in this revision (model/theorems under construction); see DESIGN.md §8"
